@@ -157,6 +157,24 @@ func c03DeclProgram(rng *core.Rand, pkg string) (src, client, want string) {
 		fmt.Fprintf(&gob, "\tif s, ok := gs.(GOpt_GSome[%s]); ok {\n\t\tfmt.Println(%s)\n\t}\n", t.gox, t.show("s.Value"))
 		w.WriteString(t.text(k2) + "\n")
 	}
+	// a generic record with two type parameters: literal with two different argument types, a
+	// function generic in both, an accessor
+	{
+		t1, t2 := tys[rng.Intn(8)], tys[rng.Intn(8)]
+		fo.WriteString("type GPair<T, U> = {PFst: T; PSnd: U}\n\n")
+		fmt.Fprintf(&fo, "let mkPair (a:%s) (b:%s) =\n  {PFst=a; PSnd=b}\n\n", t1.fo, t2.fo)
+		fo.WriteString("let mkAnyPair a b =\n  {PFst=a; PSnd=b}\n\n")
+		fmt.Fprintf(&fo, "let pairSnd (p:GPair<%s, %s>) =\n  p.PSnd\n\n", t1.fo, t2.fo)
+		k1, k2 := next(), next()
+		fmt.Fprintf(&gob, "\tvar gp GPair[%s, %s] = mkPair(%s, %s)\n", t1.gox, t2.gox, t1.goVal(k1), t2.goVal(k2))
+		pr(t1.show("gp.PFst"), t1.text(k1))
+		pr(t2.show("gp.PSnd"), t2.text(k2))
+		fmt.Fprintf(&gob, "\tvar gq GPair[%s, %s] = mkAnyPair(%s, %s)\n", t2.gox, t1.gox, t2.goVal(k2), t1.goVal(k1))
+		pr(t2.show("gq.PFst"), t2.text(k2))
+		pr(t1.show("gq.PSnd"), t1.text(k1))
+		fmt.Fprintf(&gob, "\tvar ps %s = pairSnd(GPair[%s, %s]{PFst: %s, PSnd: %s})\n", t2.gox, t1.gox, t2.gox, t1.goVal(k1), t2.goVal(k2))
+		pr(t2.show("ps"), t2.text(k2))
+	}
 	// functions: unit parameter = no parameter, unit result = no result; package variable
 	{
 		k := next()
